@@ -46,7 +46,10 @@ pub fn plan(prop: &str, tier: Tier) -> Option<(&'static str, Vec<Job>)> {
             Job::new("partlog", if q { 1400 } else { 30_000 }).caches(all3),
             Job::new("partlog", if q { 300 } else { 6_000 }).flavour("dedup-off").caches(&["off", "big"]),
         ],
-        "C19" => vec![Job::new("partlog", if q { 1000 } else { 24_000 }).caches(&["off", "big"])],
+        "C19" => vec![
+            Job::new("partlog", if q { 1000 } else { 24_000 }).caches(&["off", "big"]),
+            Job::new("crypto", if q { 20_000 } else { 600_000 }),
+        ],
         _ => return None,
     };
     let level = if matches!(prop, "C04" | "C11") { "fault_enumeration" } else { "exploration" };
